@@ -532,6 +532,10 @@ def gradProp (fuel : Nat) (h : Heap) (t : Nat) : Heap × Option Val :=
     | none => (h, tt.grad)
     | some b =>
       let tb := h.t b
+      -- a non-constant view of a constant base owns its gradient; a constant view has none
+      if tb.const then (h, tt.grad)
+      else if tt.const then (h, none)
+      else
       let cached : Option Val := match tt.viewGrad with
         | some (v, o) => if tb.grad.isSome ∧ o = tb.gradObj then some v else none
         | none => none
